@@ -20,7 +20,7 @@ theorem ownsWF_processHeader (r : Repo) (h : Hdr) (ok : Bool) (hr : RepoWF r) (h
     OwnsWF (processHeader r h ok).1.arena := by
   cases processHeader_shape r h ok hnc with
   | same ha hb _ => rw [ha]; exact ho
-  | fork pb ph lst nb hp hn ha hb _ =>
+  | fork pb ph lst nb hp hne hn ha hb _ =>
     rw [ha]
     obtain ⟨l2, w, _, _, hnb⟩ := newBranch_ok_shape r pb ph h nb hn
     intro bi b p hbi hpar
@@ -71,7 +71,7 @@ theorem rootBase_processHeader (r : Repo) (h : Hdr) (ok : Bool) (hb0 : RootBase 
     RootBase (processHeader r h ok).1.arena := by
   cases processHeader_shape r h ok hnc with
   | same ha hb _ => rw [ha]; exact hb0
-  | fork pb ph lst nb hp hn ha hb _ =>
+  | fork pb ph lst nb hp hne hn ha hb _ =>
     rw [ha]
     obtain ⟨l2, w, _, _, hnb⟩ := newBranch_ok_shape r pb ph h nb hn
     intro bi b hbi hpar
@@ -206,165 +206,5 @@ theorem isChain_exists (r : Repo) (hc : ChainWF r) (bi : Nat) (b : Branch) (hb :
   refine ⟨d, hd, ?_⟩
   rw [List.getElem?_map, List.getElem?_range hk]
   simp [hd]
-
-/-! ### the reorganisation theorem -/
-
-/-- **a reorganisation announcement rebuilds the new best chain.** In a repository reached by
-    submissions from genesis: when `reselect` switches the most-work branch and announces `evs`
-    (at least one header), a subscriber holding the previous best chain `cOld` that applies `evs`
-    (attach each header to its previous-block hash, discarding what was above it) holds exactly the
-    new best chain `cNew`. -/
-theorem reselect_reorg_stream (r : Repo) (hc : ChainWF r) (r2 : Repo) (evs : List Hdr)
-    (h : reselect r = .ok (r2, true, evs)) (hne : evs ≠ [])
-    (cOld cNew : List Hdr) (hold : IsChain r.arena r.longest cOld) (hnew : IsChain r.arena r2.longest cNew) :
-    Spec.applyStream cOld evs = cNew := by
-  have hw := hc.wf.link
-  -- what reselect did
-  unfold reselect at h
-  cases hlg : longestOf r.arena r.branches with
-  | none => rw [hlg] at h; cases h
-  | some lg =>
-    rw [hlg] at h
-    simp only at h
-    by_cases hneq : lg ≠ r.longest
-    · simp only [hneq, ne_eq, not_false_eq_true, ↓reduceIte] at h
-      cases hsb : sendBranchUpdate r lg r.longest with
-      | mk evs' err =>
-        rw [hsb] at h
-        cases err with
-        | some e => cases h
-        | none =>
-          simp only [Except.ok.injEq, Prod.mk.injEq, true_and] at h
-          obtain ⟨hr2, hevs⟩ := h
-          subst hevs
-          have hl2 : r2.longest = lg := by rw [← hr2]
-          rw [hl2] at hnew
-          obtain ⟨bb, hbb, hlenN, hidxN⟩ := hnew
-          obtain ⟨ob, hob, hlenO, hidxO⟩ := hold
-          -- what sendBranchUpdate did
-          unfold sendBranchUpdate at hsb
-          cases hih : intersectHash r.arena r.fuel lg r.longest with
-          | none => rw [hih] at hsb; cases hsb
-          | some ih =>
-            rw [hih] at hsb
-            simp only at hsb
-            cases hfind : r.find lg ih with
-            | none => rw [hfind] at hsb; cases hsb
-            | some bh =>
-              rw [hfind] at hsb
-              simp only at hsb
-              -- the intersect is a common header at height m
-              obtain ⟨cur, m, d, hd, hid, hb1, ho1⟩ := intersect_common r.arena hw hc.owns r.fuel lg r.longest ih bb ob hbb hob hih
-              have hlgm : atH r.arena lg m = some d := by rw [← hb1 m (Int.le_refl _)]; exact hd
-              have holdm : atH r.arena r.longest m = some d := by rw [← ho1 m (Int.le_refl _)]; exact hd
-              obtain ⟨bj, _, hheld⟩ := atH_heldAt r.arena hw lg m d hlgm
-              rw [hid] at hheld
-              -- the height `Find` reports for it is m
-              obtain ⟨own, bo, _, hbo, hg⟩ := bfind_owner r.arena hw.dec _ lg ih bh hfind
-              obtain ⟨k0, d0, hk0, hid0, hh0⟩ := ((hc.wf.ids.exact own bo hbo) ih bh).mp hg
-              have hbm : bh = m := (heldAt_unique r.arena r.branches hc.wf.ids own bj ih bh m ⟨bo, k0, d0, hbo, hk0, hid0, hh0⟩ hheld).2
-              subst hbm
-              -- 0 ≤ bh ≤ both tips
-              have hm0 : 0 ≤ bh := by
-                have := parentHeight_ge r.arena hw hc.root hc.owns own bo hbo
-                omega
-              obtain ⟨bb', hbb', hmN⟩ := atH_some_le_height r.arena hw lg bh d hlgm
-              rw [hbb] at hbb'; simp only [Option.some.injEq] at hbb'; subst hbb'
-              obtain ⟨ob', hob', hmO⟩ := atH_some_le_height r.arena hw r.longest bh d holdm
-              rw [hob] at hob'; simp only [Option.some.injEq] at hob'; subst hob'
-              -- the collected headers
-              obtain ⟨l, hl, hllen, hlidx⟩ := collect_spec r lg _ _ [] evs' hsb
-              simp only [List.reverse_nil, List.nil_append] at hl
-              subst hl
-              have hbrlg : r.br lg = bb := by unfold Repo.br; rw [hbb]; rfl
-              rw [hbrlg] at hllen hlidx
-              have hlgl : lg < r.arena.length := getElem?_lt _ _ _ hbb
-              have hevidx : ∀ j : Nat, j < evs'.length →
-                  ∃ dj, atH r.arena lg (bh + 1 + (j : Int)) = some dj ∧ evs'[j]? = some dj.hdr := by
-                intro j hj
-                obtain ⟨dj, hdj, hej⟩ := hlidx j (by rw [← hllen]; exact hj)
-                rw [Repo.at_eq_atH r hw.dec lg hlgl] at hdj
-                exact ⟨dj, hdj, hej⟩
-              have hM : ((bh.toNat : Nat) : Int) = bh := by omega
-              -- shape of the old chain
-              have hMO : bh.toNat < cOld.length := by omega
-              obtain ⟨dO, hdO, hcO⟩ := hidxO bh.toNat hMO
-              rw [hM, holdm] at hdO
-              simp only [Option.some.injEq] at hdO
-              subst hdO
-              have hsplitO := split_at cOld bh.toNat d.hdr hcO
-              -- shape of the new chain
-              have hMN : bh.toNat < cNew.length := by omega
-              obtain ⟨dN, hdN, hcN⟩ := hidxN bh.toNat hMN
-              rw [hM, hlgm] at hdN
-              simp only [Option.some.injEq] at hdN
-              subst hdN
-              have hsplitN := split_at cNew bh.toNat d.hdr hcN
-              have htake : cNew.take bh.toNat = cOld.take bh.toNat := by
-                apply List.ext_getElem?
-                intro i
-                rw [List.getElem?_take, List.getElem?_take]
-                by_cases hi : i < bh.toNat
-                · simp only [hi, ↓reduceIte]
-                  obtain ⟨a, ha, hca⟩ := hidxN i (by omega)
-                  obtain ⟨b, hb, hcb⟩ := hidxO i (by omega)
-                  rw [← hb1 (i : Int) (by omega)] at ha
-                  rw [← ho1 (i : Int) (by omega), ha] at hb
-                  simp only [Option.some.injEq] at hb
-                  rw [hca, hcb, hb]
-                · simp only [hi, ↓reduceIte]
-              have hlenE : (evs'.length : Int) = bb.height - bh := by rw [hllen]; omega
-              have hdrop : cNew.drop (bh.toNat + 1) = evs' := by
-                apply List.ext_getElem?
-                intro j
-                rw [List.getElem?_drop]
-                by_cases hj : j < evs'.length
-                · obtain ⟨dj, hdj, hej⟩ := hevidx j hj
-                  obtain ⟨a, ha, hca⟩ := hidxN (bh.toNat + 1 + j) (by omega)
-                  have e1 : (((bh.toNat + 1 + j : Nat)) : Int) = bh + 1 + (j : Int) := by omega
-                  rw [e1, hdj] at ha
-                  simp only [Option.some.injEq] at ha
-                  rw [hca, hej, ha]
-                · rw [List.getElem?_eq_none (by omega), List.getElem?_eq_none (by omega)]
-              rw [htake, hdrop] at hsplitN
-              -- the stream is a linked chain hanging off the common header
-              have hlink : Spec.Linked d.hdr evs' := by
-                apply linked_of_idx
-                · intro e he
-                  have hpos : 0 < evs'.length := getElem?_lt _ _ _ he
-                  obtain ⟨d1, hd1, he1⟩ := hevidx 0 hpos
-                  rw [he] at he1
-                  simp only [Option.some.injEq] at he1
-                  rw [he1]
-                  have e0 : bh + 1 + ((0 : Nat) : Int) - 1 = bh := by omega
-                  exact atH_linked r.arena hw lg _ d1 d hd1 (by rw [e0]; exact hlgm)
-                · intro j a b ha hb
-                  obtain ⟨da, hda, hea⟩ := hevidx j (getElem?_lt _ _ _ ha)
-                  obtain ⟨db, hdb, heb⟩ := hevidx (j + 1) (getElem?_lt _ _ _ hb)
-                  rw [ha] at hea; rw [hb] at heb
-                  simp only [Option.some.injEq] at hea heb
-                  rw [hea, heb]
-                  have e0 : bh + 1 + ((j + 1 : Nat) : Int) - 1 = bh + 1 + (j : Int) := by omega
-                  exact atH_linked r.arena hw lg _ db da hdb (by rw [e0]; exact hda)
-              -- no two headers of the new chain share an id
-              have hnodup : (cNew.map (·.id)).Nodup := by
-                apply nodup_of_idx_inj
-                intro i j a b ha hb heq
-                obtain ⟨da, hda, hca⟩ := hidxN i (getElem?_lt _ _ _ ha)
-                obtain ⟨db, hdb, hcb⟩ := hidxN j (getElem?_lt _ _ _ hb)
-                rw [ha] at hca; rw [hb] at hcb
-                simp only [Option.some.injEq] at hca hcb
-                obtain ⟨b1, _, hh1⟩ := atH_heldAt r.arena hw lg _ da hda
-                obtain ⟨b2, _, hh2⟩ := atH_heldAt r.arena hw lg _ db hdb
-                have e : da.hdr.id = db.hdr.id := by rw [← hca, ← hcb]; exact heq
-                rw [e] at hh1
-                have := (heldAt_unique r.arena r.branches hc.wf.ids b1 b2 _ _ _ hh1 hh2).2
-                omega
-              rw [hsplitN] at hnodup
-              rw [hsplitN]
-              have key := Spec.applyStream_reorg (cOld.take bh.toNat) d.hdr (cOld.drop (bh.toNat + 1)) evs' hlink hnodup hne
-              rw [← hsplitO] at key
-              exact key
-    · simp only [hneq, ↓reduceIte, Except.ok.injEq, Prod.mk.injEq, Bool.false_eq_true, false_and, and_false] at h
 
 end BRV.Repo
